@@ -1,0 +1,9 @@
+//go:build verif
+
+// Contracts for package ast, read by /verif/vcgen (comment-only; adds no code).
+
+package ast
+
+// Node invariants that the inference from ast/sql.go (fields dereferenced unconditionally by SQL())
+// cannot state because SQL() branches on another field.
+// @ typeinv ast.DefaultExpr self.Default || self.Expr != nil
